@@ -11,6 +11,14 @@ CLAIMED = {
             'Every statement of the property (block size >= request, monotone bins, <=25% fragmentation, good_size idempotent, interior pointer -> block start, pointer -> segment, fast division, span bins, align/divide/overflow helpers) is a Lean theorem, for all inputs, about definitions that extract/translate.py regenerates from /repo/src on every run; the translator is validated on ~370k inputs against the compiled functions; an exhaustive C oracle searches the failing input when a theorem stops checking.',
             TB + 'builtin semantics of clz/ctz/umull_overflow; release configuration; mi_good_size = usable size of mi_malloc is checked by the oracle on the real allocator (exhaustive up to 1100, sampled above), not proved.',
             'DESIGN.md §4 C16'),
+    'C06': ('Lean 4 theorems over the entry-point layer regenerated from the C source (allocator core as universally quantified oracles, side effects as an effect log)',
+            'Overflowing count*size, sizes above MI_MAX_ALLOC_SIZE, alignments 0 / non-power-of-two, posix_memalign EINVAL/ENOMEM with untouched out-parameter, pvalloc overflow, reallocarray errno, failing realloc leaves the old block alone: each is a theorem "result NULL and empty effect log for every allocator underneath" about wrappers regenerated from alloc.c/alloc-aligned.c/alloc-posix.c/page.c on every run; the generated wrappers are compared with ~10k decisions of the real entry points; a real-allocator oracle checks that failing calls change neither the live set nor block contents and that well-formed moderate requests succeed.',
+            TB + 'allocator oracles are pure functions (one call per path); the converse "well-formed requests succeed when the OS grants memory" is checked on the real allocator, not proved; mi_new_n abort/throw is out of scope.',
+            'DESIGN.md §4 C06'),
+    'C05': ('Lean 4 theorems over the realloc family regenerated from the C source (effect log: memzero / memcpy / free in order)',
+            'In-place exactly when the new size fits with <=50% waste; on a move min(old usable, new) bytes are copied before the single free of the old block; the old block is freed iff a different non-NULL pointer is returned; NULL input = allocation; zero size = minimal block; failing realloc has an empty effect log; reallocf frees on failure; mi_expand never moves and succeeds iff new <= usable; aligned variants keep (p+offset) aligned — theorems for every allocator oracle over definitions regenerated from alloc.c / alloc-aligned.c; decisions of the real realloc/expand are compared with the generated predicates; contents, usable size, alignment and live-block counts are checked on the real allocator.',
+            TB + 'the allocator underneath realloc (malloc/free/usable_size) is an oracle here and is the subject of C01; memcpy semantics assumed.',
+            'DESIGN.md §4 C05'),
 }
 NOT_YET = 'check not built yet (work in progress in this session; see DESIGN.md §12 implementation order)'
 def main():
